@@ -40,6 +40,29 @@ def main():
             continue
         m = json.loads(mp.read_text())
         out.append(f"| `{m['id']}` | {m['breaks_property']} | {m['needs_to_manifest']} | {m['check_result']} | {m['caught_by']} |")
+    # A.4 engines as built (read from the check modules)
+    import importlib
+    import sys
+    sys.path.insert(0, str(V))
+    from vlib.runner import MODULES, THOROUGH_SCALE
+    out.append("\n### A.4 Checks as built: engines, budgets and the stated rule (read from the check modules)\n")
+    for pid in sorted(MODULES):
+        mod = importlib.import_module(MODULES[pid])
+        engs = mod.engines()
+        sc = THOROUGH_SCALE.get(pid, 1)
+        out.append(f"**{pid}** (`{MODULES[pid].replace('.', '/')}.py`; thorough case counts x{sc})\n")
+        out.append("| engine | generated cases quick / thorough | enumerated part | shrinks (thorough) |")
+        out.append("|---|---|---|---|")
+        for e in engs:
+            q, t = e.cases.get("quick", 0), e.cases.get("thorough", 0)
+            gen_ = f"{q} / {int(t * sc)}" if e.strategy is not None else "-"
+            out.append(f"| `{e.name}` | {gen_} | {'yes' if e.enumerate is not None else '-'} | {'yes' if e.shrink.get('thorough', True) else 'no'} |")
+        out.append("")
+        out.append("Rule: " + " ".join(str(mod.RULE).split()))
+        tol = getattr(mod, "TOLERANCES", None)
+        if tol:
+            out.append("\nTolerances: " + "; ".join(f"{k}: {v}" for k, v in tol.items()))
+        out.append("")
     text = "\n".join(out)
     p = V / "DESIGN.md"
     s = p.read_text()
